@@ -220,10 +220,57 @@ func panicSignature(msg, stack string) string {
 // goroutine dump taken now (while the router is still in the offending
 // state); the history is not continued.
 func (r *runner) violation(oracle, detail string, hang bool) {
+	r.violationKnown(oracle, detail, hang, false)
+}
+
+// metaPeerSenders: functions from which a session handler (or the realm
+// goroutine on its behalf) hands a meta publication to the meta peer.
+var metaPeerSenders = []string{"router.(*dealer).register", "router.(*dealer).unregister", "router.(*dealer).removeSession",
+	"router.(*realm).onJoin", "router.(*realm).onLeave", "router.(*broker).subscribe", "router.(*broker).unsubscribe",
+	"router.(*broker).removeSession", "router.(*realm).handleInboundMessages", "router.(*realm).handleSession"}
+
+// metaRetryBlocksHandler: the dump shows the root cause of the known finding
+// meta-result-retry-blocks-metapeer — the meta-session handler is inside
+// dealer.yield (RESULT retry for a caller that does not read) and another
+// goroutine of the router is blocked in a channel SEND from one of the
+// functions that publish meta events.
+func metaRetryBlocksHandler(dump, bubble string) bool {
+	metaInYield, senderBlocked := false, false
+	for _, g := range parseStacks(dump) {
+		if g.bubble != bubble {
+			continue
+		}
+		if strings.Contains(g.raw, "createMetaSession.func1") && strings.Contains(g.raw, "(*dealer).yield") {
+			metaInYield = true
+			continue
+		}
+		if !strings.HasPrefix(g.state, "chan send") {
+			continue
+		}
+		if top, idx, harness := g.topNexus(); top != "" && !harness && idx == 0 {
+			for _, f := range metaPeerSenders {
+				if strings.HasPrefix(top, f) {
+					senderBlocked = true
+				}
+			}
+		}
+	}
+	return metaInYield && senderBlocked
+}
+
+// violationKnown: metaRetry — the known finding's root cause state was observed
+// while the offending request was pending (the dump taken NOW may be too late
+// to show it: the retry has ended).
+func (r *runner) violationKnown(oracle, detail string, hang, metaRetry bool) {
 	dump := allStacks()
 	list, meta, raw := classify(dump, r.bubble, false)
+	if list == "" {
+		// nothing is blocked any more (e.g. a request that was taken late):
+		// never an empty location
+		list = "shape:" + r.h.Shape
+	}
 	sig := oracle + "@" + list
-	if meta && !hang {
+	if (meta || metaRetry) && !hang {
 		sig = "meta-result-retry-blocks-metapeer"
 	}
 	r.mu.Lock()
@@ -310,7 +357,24 @@ func callPending(c *callRec) bool {
 // the settle time, when everything still missing is starved.
 func (r *runner) check(final bool) {
 	now := r.now()
-	type viol struct{ oracle, detail string }
+	type viol struct {
+		oracle, detail string
+		metaRetry      bool // the root cause state of the known finding was seen while it was pending
+	}
+	// metaRetryNow: lazily, once per check — the meta-session handler sits in
+	// dealer.yield's RESULT retry AND a session handler is blocked handing a
+	// meta publication to the meta peer (dealer.register / unregister /
+	// removeSession, realm.onJoin / onLeave ...): the known finding's root cause.
+	metaState := 0
+	metaRetryNow := func() bool {
+		if metaState == 0 {
+			metaState = 1
+			if metaRetryBlocksHandler(allStacks(), r.bubble) {
+				metaState = 2
+			}
+		}
+		return metaState == 2
+	}
 	var v []viol
 	r.mu.Lock()
 	// C07 non-triviality: a session was stalled with a full queue at the
@@ -363,11 +427,14 @@ func (r *runner) check(final bool) {
 					if s.expGone != "" || s.held {
 						continue
 					}
+					if !it.metaBlk && metaRetryNow() {
+						it.metaBlk = true
+					}
 					if now <= s.excUntil && it.enq <= s.excUntil {
 						continue // yield-retry exception may apply
 					}
 					it.judge = true
-					v = append(v, viol{"handler-blocked", fmt.Sprintf("s%d: %s offered at %d ms still not taken by its session handler", s.idx, it.desc, ms(it.enq))})
+					v = append(v, viol{"handler-blocked", fmt.Sprintf("s%d: %s offered at %d ms still not taken by its session handler", s.idx, it.desc, ms(it.enq)), it.metaBlk})
 				case itAccepted:
 					it.judge = true
 					if late := it.acc - it.enq; late > 0 {
@@ -375,13 +442,17 @@ func (r *runner) check(final bool) {
 							// held behind one or several RESULT retries of its own YIELDs
 							r.excUsed++
 						} else if s.expGone == "" {
-							v = append(v, viol{"handler-blocked", fmt.Sprintf("s%d: %s offered at %d ms was taken %d ms later", s.idx, it.desc, ms(it.enq), ms(late))})
+							det := fmt.Sprintf("s%d: %s offered at %d ms was taken %d ms later", s.idx, it.desc, ms(it.enq), ms(late))
+							if it.metaBlk {
+								det += " (while it waited the meta-session handler sat in dealer.yield's RESULT retry and a session handler was blocked sending to the meta peer)"
+							}
+							v = append(v, viol{"handler-blocked", det, it.metaBlk && late <= yieldRetryMax})
 						}
 					}
 				case itTimeout:
 					it.judge = true
 					if s.expGone == "" {
-						v = append(v, viol{"handler-blocked", fmt.Sprintf("s%d: %s offered at %d ms never taken (1 h)", s.idx, it.desc, ms(it.enq))})
+						v = append(v, viol{"handler-blocked", fmt.Sprintf("s%d: %s offered at %d ms never taken (1 h)", s.idx, it.desc, ms(it.enq)), false})
 					}
 				default:
 					it.judge = true
@@ -389,7 +460,7 @@ func (r *runner) check(final bool) {
 			}
 			if s.gone != "" && s.expGone == "" && !s.leaving {
 				s.expGone = "reported"
-				v = append(v, viol{"bystander-starved", fmt.Sprintf("s%d was ended by the router: %s", s.idx, s.gone)})
+				v = append(v, viol{"bystander-starved", fmt.Sprintf("s%d was ended by the router: %s", s.idx, s.gone), false})
 			}
 		}
 		// oracle 2: replies and events
@@ -441,7 +512,7 @@ func (r *runner) check(final bool) {
 				}
 				e.done = true
 				if !ok && len(al) > 0 {
-					v = append(v, viol{"bystander-delayed", fmt.Sprintf("s%d: %s arrived at %d ms, %d ms late", s.idx, e.desc, ms(gotAt), ms(gotAt-al[0]))})
+					v = append(v, viol{"bystander-delayed", fmt.Sprintf("s%d: %s arrived at %d ms, %d ms late", s.idx, e.desc, ms(gotAt), ms(gotAt-al[0])), false})
 				}
 				continue
 			}
@@ -468,7 +539,7 @@ func (r *runner) check(final bool) {
 				if final {
 					o = "bystander-starved"
 				}
-				v = append(v, viol{o, fmt.Sprintf("s%d: %s not received (owed since %d ms)", s.idx, e.desc, ms(al[0]))})
+				v = append(v, viol{o, fmt.Sprintf("s%d: %s not received (owed since %d ms)", s.idx, e.desc, ms(al[0])), false})
 			}
 		}
 	}
@@ -483,5 +554,5 @@ func (r *runner) check(final bool) {
 	if len(det) > 6 {
 		det = append(det[:6], fmt.Sprintf("... and %d more", len(det)-6))
 	}
-	r.violation(v[0].oracle, strings.Join(det, "; "), false)
+	r.violationKnown(v[0].oracle, strings.Join(det, "; "), false, v[0].metaRetry)
 }
